@@ -53,7 +53,7 @@ def fns(common):
     C['calls'] = [(r'^make_params\|', 'cgd_make_params'), (r'^operator\(\)\|bool \(const double\) const\|\(lambda', 'cgd_muc(self, {1}, &interval, logger, &params)'), (r'^get\|__tuple_element_t<0UL, tuple<double, double>>', '{0}._0'), (r'^get\|__tuple_element_t<1UL, tuple<double, double>>', '{0}._1'), (r'^ctor\|nano::lsearchk_cgdescent_t::interval_t\|', 'nv_cgd_interval_make({&0}, {&1}, {2}, {&3})'), (r'^secant\|', 'nv_secant({&0}, {&1})')] + C['calls']
     mk = lambda cname, name, flt, **kw: Fn(cname, SRC, name, flt=flt, **dict(C, **kw))
     I = 'struct nv_cgd_interval'
-    return {f.cname: f for f in [mk('cgd_interval_ctor', 'interval_t', FLT, self_struct=I),
+    return {f.cname: f for f in [mk('cgd_interval_ctor', 'interval_t', FLT, self_struct=I, ref_member_pointers=True),
             mk('cgd_done', 'done', FLT, self_struct=I),
             mk('cgd_updateA', 'updateA', FLT, self_struct=I),
             mk('cgd_updateB', 'updateB', FLT, self_struct=I),
